@@ -1212,7 +1212,7 @@ func (c S3ApiController) PutBucketActions(ctx *fiber.Ctx) error {
 		parsedAcl := ctx.Locals("parsedAcl").(auth.ACL)
 
 		var bucketTagging s3response.TaggingInput
-		err := xml.Unmarshal(ctx.Body(), &bucketTagging)
+		err := xml.Unmarshal(ctx.BodyRaw(), &bucketTagging)
 		if err != nil {
 			if c.debug {
 				debuglogger.Logf("error unmarshalling bucket tagging: %v", err)
@@ -1290,7 +1290,7 @@ func (c S3ApiController) PutBucketActions(ctx *fiber.Ctx) error {
 	if ctx.Request().URI().QueryArgs().Has("ownershipControls") {
 		parsedAcl := ctx.Locals("parsedAcl").(auth.ACL)
 		var ownershipControls s3response.OwnershipControls
-		if err := xml.Unmarshal(ctx.Body(), &ownershipControls); err != nil {
+		if err := xml.Unmarshal(ctx.BodyRaw(), &ownershipControls); err != nil {
 			if c.debug {
 				debuglogger.Logf("failed to unmarshal request body: %v", err)
 			}
@@ -1367,7 +1367,7 @@ func (c S3ApiController) PutBucketActions(ctx *fiber.Ctx) error {
 		}
 
 		var versioningConf types.VersioningConfiguration
-		err = xml.Unmarshal(ctx.Body(), &versioningConf)
+		err = xml.Unmarshal(ctx.BodyRaw(), &versioningConf)
 		if err != nil {
 			if c.debug {
 				debuglogger.Logf("error unmarshalling versioning configuration: %v",
@@ -1427,7 +1427,7 @@ func (c S3ApiController) PutBucketActions(ctx *fiber.Ctx) error {
 				})
 		}
 
-		config, err := auth.ParseBucketLockConfigurationInput(ctx.Body())
+		config, err := auth.ParseBucketLockConfigurationInput(ctx.BodyRaw())
 		if err != nil {
 			return SendResponse(ctx, err,
 				&MetaOpts{
@@ -1502,7 +1502,7 @@ func (c S3ApiController) PutBucketActions(ctx *fiber.Ctx) error {
 				})
 		}
 
-		err = auth.ValidatePolicyDocument(ctx.Body(), bucket, c.iam)
+		err = auth.ValidatePolicyDocument(ctx.BodyRaw(), bucket, c.iam)
 		if err != nil {
 			return SendResponse(ctx, err,
 				&MetaOpts{
@@ -1514,7 +1514,7 @@ func (c S3ApiController) PutBucketActions(ctx *fiber.Ctx) error {
 			)
 		}
 
-		err = c.be.PutBucketPolicy(ctx.Context(), bucket, ctx.Body())
+		err = c.be.PutBucketPolicy(ctx.Context(), bucket, ctx.BodyRaw())
 		return SendResponse(ctx, err,
 			&MetaOpts{
 				Logger:      c.logger,
@@ -1573,9 +1573,9 @@ func (c S3ApiController) PutBucketActions(ctx *fiber.Ctx) error {
 				})
 		}
 
-		if len(ctx.Body()) > 0 {
+		if len(ctx.BodyRaw()) > 0 {
 			var accessControlPolicy auth.AccessControlPolicy
-			err := xml.Unmarshal(ctx.Body(), &accessControlPolicy)
+			err := xml.Unmarshal(ctx.BodyRaw(), &accessControlPolicy)
 			if err != nil {
 				if c.debug {
 					debuglogger.Logf("error unmarshalling access control policy: %v", err)
@@ -1873,7 +1873,7 @@ func (c S3ApiController) PutActions(ctx *fiber.Ctx) error {
 
 	if ctx.Request().URI().QueryArgs().Has("tagging") {
 		var objTagging s3response.TaggingInput
-		err := xml.Unmarshal(ctx.Body(), &objTagging)
+		err := xml.Unmarshal(ctx.BodyRaw(), &objTagging)
 		if err != nil {
 			if c.debug {
 				debuglogger.Logf("error unmarshalling object tagging: %v", err)
@@ -1984,7 +1984,7 @@ func (c S3ApiController) PutActions(ctx *fiber.Ctx) error {
 			}
 		}
 
-		retention, err := auth.ParseObjectLockRetentionInput(ctx.Body())
+		retention, err := auth.ParseObjectLockRetentionInput(ctx.BodyRaw())
 		if err != nil {
 			if c.debug {
 				debuglogger.Logf("failed to parse object lock configuration input: %v", err)
@@ -2008,7 +2008,7 @@ func (c S3ApiController) PutActions(ctx *fiber.Ctx) error {
 
 	if ctx.Request().URI().QueryArgs().Has("legal-hold") {
 		var legalHold types.ObjectLockLegalHold
-		if err := xml.Unmarshal(ctx.Body(), &legalHold); err != nil {
+		if err := xml.Unmarshal(ctx.BodyRaw(), &legalHold); err != nil {
 			if c.debug {
 				debuglogger.Logf("failed to parse request body: %v", err)
 			}
@@ -2305,7 +2305,7 @@ func (c S3ApiController) PutActions(ctx *fiber.Ctx) error {
 				})
 		}
 
-		if len(ctx.Body()) > 0 {
+		if len(ctx.BodyRaw()) > 0 {
 			if grants+acl != "" {
 				if c.debug {
 					debuglogger.Logf("invalid request: %q (grants) %q (acl)",
@@ -2322,7 +2322,7 @@ func (c S3ApiController) PutActions(ctx *fiber.Ctx) error {
 			}
 
 			var accessControlPolicy auth.AccessControlPolicy
-			err := xml.Unmarshal(ctx.Body(), &accessControlPolicy)
+			err := xml.Unmarshal(ctx.BodyRaw(), &accessControlPolicy)
 			if err != nil {
 				if c.debug {
 					debuglogger.Logf("error unmarshalling access control policy: %v",
@@ -2385,10 +2385,10 @@ func (c S3ApiController) PutActions(ctx *fiber.Ctx) error {
 						BucketOwner: parsedAcl.Owner,
 					})
 			}
-			if len(ctx.Body()) > 0 || grants != "" {
+			if len(ctx.BodyRaw()) > 0 || grants != "" {
 				if c.debug {
 					debuglogger.Logf("invalid request: %q (grants) %q (acl) %v (body len)",
-						grants, acl, len(ctx.Body()))
+						grants, acl, len(ctx.BodyRaw()))
 				}
 				return SendResponse(ctx,
 					s3err.GetAPIError(s3err.ErrInvalidRequest),
@@ -3006,7 +3006,7 @@ func (c S3ApiController) DeleteObjects(ctx *fiber.Ctx) error {
 	bypassHdr := ctx.Get("X-Amz-Bypass-Governance-Retention")
 	var dObj s3response.DeleteObjects
 
-	err := xml.Unmarshal(ctx.Body(), &dObj)
+	err := xml.Unmarshal(ctx.BodyRaw(), &dObj)
 	if err != nil {
 		if c.debug {
 			debuglogger.Logf("error unmarshalling delete objects: %v", err)
@@ -3611,7 +3611,7 @@ func (c S3ApiController) CreateActions(ctx *fiber.Ctx) error {
 
 	if ctx.Request().URI().QueryArgs().Has("restore") {
 		var restoreRequest types.RestoreRequest
-		if err := xml.Unmarshal(ctx.Body(), &restoreRequest); err != nil {
+		if err := xml.Unmarshal(ctx.BodyRaw(), &restoreRequest); err != nil {
 			if !errors.Is(err, io.EOF) {
 				if c.debug {
 					debuglogger.Logf("failed to parse the request body: %v", err)
@@ -3665,7 +3665,7 @@ func (c S3ApiController) CreateActions(ctx *fiber.Ctx) error {
 	if ctx.Request().URI().QueryArgs().Has("select") && ctx.Query("select-type") == "2" {
 		var payload s3response.SelectObjectContentPayload
 
-		err := xml.Unmarshal(ctx.Body(), &payload)
+		err := xml.Unmarshal(ctx.BodyRaw(), &payload)
 		if err != nil {
 			if c.debug {
 				debuglogger.Logf("error unmarshalling select object content: %v", err)
@@ -3723,7 +3723,7 @@ func (c S3ApiController) CreateActions(ctx *fiber.Ctx) error {
 			Parts []types.CompletedPart `xml:"Part"`
 		}{}
 
-		err := xml.Unmarshal(ctx.Body(), &data)
+		err := xml.Unmarshal(ctx.BodyRaw(), &data)
 		if err != nil {
 			if c.debug {
 				debuglogger.Logf("error unmarshalling complete multipart upload: %v", err)
